@@ -488,6 +488,7 @@ CHECKS = {
             {"name": "TestC17MonitorWindow", "kind": "plain", "quick": 1, "thorough": 1, "shards": {"quick": 1, "thorough": 1}},
             {"name": "TestC17", "quick": 240, "thorough": 12000},
             {"name": "TestC17Tokens", "quick": 400, "thorough": 12000},
+            {"name": "TestC17Aged", "quick": 8, "thorough": 160},
         ],
     },
     "C18": {
